@@ -212,6 +212,23 @@ func verifyFunc(l *Loaded, spec *FuncSpec, prop string) (res *FuncResult) {
 			g := x.evalClause(c, en)
 			x.emit(s2, "ensures", x.oblName(en.Name), en.Line, g)
 		}
+		if sp.ModSet {
+			// frame: ghost state outside the modifies clause is unchanged
+			mods := map[string]bool{}
+			for _, g := range sp.Modifies {
+				mods[g] = true
+			}
+			var gs []string
+			for g := range s2.Worlds[0] {
+				gs = append(gs, g)
+			}
+			sort.Strings(gs)
+			for _, g := range gs {
+				if !mods[g] {
+					x.emit(s2, "frame", x.oblName("frame/"+g), sp.File, Eq(s2.Worlds[0][g], x.entry.Worlds[0][g]))
+				}
+			}
+		}
 		if !returned {
 			returned = true
 			x.obls = append(x.obls, &Obligation{Name: x.oblName("cover/return"), Kind: "cover", Func: fn.String(), Hyps: append([]T(nil), s2.PC...), Goal: TFalse, Expect: "sat"})
@@ -244,24 +261,59 @@ func (e *Engine) script(o *Obligation) string {
 		sb.WriteByte('\n')
 	}
 	cover := o.Expect == "sat"
-	if !cover {
-		// cover (satisfiability) queries drop all quantified formulas: solvers cannot build models for them
-		sb.WriteString(preludeAxioms)
-		for _, a := range e.axioms {
-			sb.WriteString(a)
-			sb.WriteByte('\n')
-		}
-	}
+	var body strings.Builder
 	for _, h := range o.Hyps {
 		if cover && (strings.Contains(h.S, "(forall ") || strings.Contains(h.S, "(exists ")) {
 			continue
 		}
-		fmt.Fprintf(&sb, "(assert %s)\n", h.S)
+		fmt.Fprintf(&body, "(assert %s)\n", h.S)
 	}
 	if o.Expect == "unsat" {
-		fmt.Fprintf(&sb, "(assert (not %s))\n", o.Goal.S)
+		fmt.Fprintf(&body, "(assert (not %s))\n", o.Goal.S)
 	}
+	if !cover {
+		// cover (satisfiability) queries drop all quantified formulas: solvers cannot build models for them.
+		// Quantified axioms are included only when the function they constrain occurs in the query (relevance
+		// filter; iterated to a fixpoint because axioms mention other functions).
+		all := append(strings.Split(strings.TrimSpace(preludeAxioms), "\n"), e.axioms...)
+		used := map[int]bool{}
+		text := body.String()
+		for changed := true; changed; {
+			changed = false
+			for i, a := range all {
+				if used[i] {
+					continue
+				}
+				if sym := axiomSymbol(a); sym == "" || strings.Contains(text, "("+sym+" ") {
+					used[i] = true
+					changed = true
+					text += a
+				}
+			}
+		}
+		for i, a := range all {
+			if used[i] {
+				sb.WriteString(a)
+				sb.WriteByte('\n')
+			}
+		}
+	}
+	sb.WriteString(body.String())
 	return sb.String()
+}
+
+// axiomSymbol: the function symbol an axiom is triggered by (from its :pattern), "" if unknown.
+func axiomSymbol(a string) string {
+	i := strings.LastIndex(a, ":pattern ((")
+	if i < 0 {
+		return ""
+	}
+	rest := a[i+len(":pattern (("):]
+	j := strings.IndexAny(rest, " )")
+	if j < 0 {
+		return ""
+	}
+	return rest[:j]
 }
 
 // datatypeDecls: all datatypes in dependency order (Dyn depends on payload sorts; structs may depend on Dyn).
